@@ -19,7 +19,26 @@ def fam_fastpath(g):
     path = rng.choice(files)
     base = g.branch()
     klass = rng.choice(["all", "all", "some", "none", "reorder"])
+    if g.cfg.get("many_files"):
+        klass = "many"
     g.ex.probe("fastpath.class." + klass)
+    if klass == "many":
+        # more AI-touched files in the rewritten range than fit one pathspec list (the code switches strategy above
+        # 1000 paths): one agent report creates them, upstream changes the one file they all share with history
+        yield g.git("checkout", "-q", "-b", "feat")
+        op = g.ai_edit(path=path, kinds=["insert", "append"])
+        for k in range(g.cfg["many_files"]):
+            op["files"]["many/f%04d.txt" % k] = "L%d generated line\n" % g.ex.fresh_id()
+        op.pop("dirty", None)
+        yield op
+        yield from g.commit_all()
+        yield g.git("checkout", "-q", base)
+        yield g.human_edit(path=path, kinds=["insert"], pos="top", max_block=2)
+        yield from g.commit_all()
+        yield g.git("checkout", "-q", "feat")
+        yield g.git("rebase", base, rewrite=True)
+        yield from hist.resolve_loop(g, ["rebase", "--continue"], ["rebase", "--abort"], must_abort=True)
+        return
     if klass == "reorder":
         # commits that touch different files are reordered: the tip trees agree, the pairs do not
         name = "feat"
@@ -96,6 +115,10 @@ class C15(C02):
         h = super().header(rng, tier, index)
         h["variant"] = {"env": {"GIT_AI_VERIF_FLAGS": "decline_fast_path"}}
         h["cfg"]["n_files"] = 3
+        if index % 150 == 75:
+            # one run in 150: the rewritten range touches more files than the 1000-path limit of a pathspec list
+            h["cfg"]["many_files"] = 1001 + (index % 7)
+            h["cfg"]["maintenance"] = False
         return h
 
     def draw_hazards(self, rng, tier):
@@ -118,7 +141,12 @@ class C15(C02):
             os.remove(os.path.join(ex.w.root, "verif.trace"))
         except OSError:
             pass
-        v = compare_pair(ex, what=("blame",)) or self.compare_notes_on_added_lines(ex)
+        files = None
+        if cfg.get("many_files"):
+            # (blame of a sample of the generated files only: a thousand blames would dominate the run)
+            tracked = ex.w.tracked_files(ex.repos["r0"])
+            files = [f for f in tracked if not f.startswith("many/")] + [f for f in tracked if f.startswith("many/")][:4]
+        v = compare_pair(ex, what=("blame",), files=files) or self.compare_notes_on_added_lines(ex)
         if v:
             v["detail"]["shortcut_taken"] = bool(ex.gen_state.get("taken"))
         return v
